@@ -2152,3 +2152,41 @@ def n_trim_ascii(ex, callee, a, env):
         while hi > lo and T(ws(items[hi - 1])):
             hi -= 1
     return Slice(sl.buf, sl.start + lo, hi - lo, sl.is_str)
+
+
+# ----------------------------------------------------------------------------- operator traits on primitive integers (also through references)
+_OPS = {'add': 'Add', 'sub': 'Sub', 'mul': 'Mul', 'div': 'Div', 'rem': 'Rem', 'bitand': 'BitAnd', 'bitor': 'BitOr', 'bitxor': 'BitXor', 'shl': 'Shl', 'shr': 'Shr'}
+
+
+@native(r'^<&?(?:\'\w+ )?([iu](?:8|16|32|64|128|size)|bool) as (Add|Sub|Mul|Div|Rem|BitAnd|BitOr|BitXor|Shl|Shr)(<.*>)?>::(add|sub|mul|div|rem|bitand|bitor|bitxor|shl|shr)$', 'integer operator traits')
+def n_int_op(ex, callee, a, env):
+    from .engine import int_arith
+    m = re.match(r'^<&?(?:\'\w+ )?([iu](?:8|16|32|64|128|size)|bool) as', callee)
+    ty = m.group(1)
+    base = _OPS[callee.rsplit('::', 1)[1]]
+    x, y = deref(a[0]), deref(a[1])
+    if ty == 'bool':
+        return int_arith(ex, base, x, y, False, None)
+    signed, width = int_info(ty)
+    if base in ('Add', 'Sub', 'Mul'):
+        r = int_arith(ex, base, x, y, signed, width, True)
+        ov = r.f[1]
+        if (ov is True) or (is_sym(ov) and ex.truth(ov)):
+            raise Panic(f'attempt to {callee.rsplit("::", 1)[1]} with overflow')
+        return r.f[0]
+    if base in ('Shl', 'Shr'):
+        if isinstance(y, int) and y >= width:
+            raise Panic('attempt to shift with overflow')
+    return int_arith(ex, base, x, y, signed, width)
+
+
+@native(r'^<&?(?:\'\w+ )?([iu](?:8|16|32|64|128|size)|bool) as Not>::not$', 'integer Not')
+def n_int_not(ex, callee, a, env):
+    m = re.match(r'^<&?(?:\'\w+ )?([iu](?:8|16|32|64|128|size)|bool) as', callee)
+    v = deref(a[0])
+    if m.group(1) == 'bool':
+        return (not v) if isinstance(v, bool) else Not(v)
+    signed, width = int_info(m.group(1))
+    if isinstance(v, int):
+        return mask(~v, signed, width)
+    return ~v
